@@ -135,3 +135,17 @@ pub fn vx_ord_ge(a: core::cmp::Ordering, b: core::cmp::Ordering) -> (r: bool) en
 
 /// R16b: what the dispatch loop does after an arm: `ip += 1` (Next) or `ip = t` (Jump(t))
 pub enum VxNext { Next, Jump(usize) }
+
+// ---- array / map literals
+pub uninterp spec fn list_value(s: Seq<Value>) -> Value;
+impl vstd::std_specs::convert::FromSpecImpl<Vec<Value>> for Value {
+    open spec fn obeys_from_spec() -> bool { true }
+    open spec fn from_spec(v: Vec<Value>) -> Value { list_value(v@) }
+}
+impl From<Vec<Value>> for Value {
+    #[verifier::external_body]
+    fn from(v: Vec<Value>) -> Value { unimplemented!() }
+}
+/// `v.reverse()` (std)
+#[verifier::external_body]
+pub fn vx_reverse_values(v: &mut Vec<Value>) ensures final(v)@ == old(v)@.reverse() { unimplemented!() }
